@@ -7,7 +7,7 @@ import subprocess
 from core import (BUILD, Sandbox, Snap, mask_log, render_log, parse_cat_tree, parse_log, parse_ls_files,
                   parse_reflog, parse_sign, parse_status)
 
-MODELDRV = os.path.join(BUILD, "modeldrv")
+MODELDRV = os.environ.get("VERIF_MODELDRV") or os.path.join(BUILD, "modeldrv")
 
 
 def hx(b):
